@@ -16,7 +16,7 @@ RULE = (
     "transpose, rename, assign_coords, expand_dims, squeeze, shift, diff, xr.concat along an old or new non-grid dim, shallow "
     "and deep copy; interleaved with uxarray's isel(n_face|n_node=...), integrate, gradient, difference, topological_mean, "
     "remap.nearest_neighbor and get_dual when their preconditions hold. After every step: type, attached grid, values "
-    "against plain xarray, grid-dimension sizes against the attached grid's element counts. Non-trivial = at least two steps "
+    "against plain xarray, grid-dimension sizes against the attached grid's element counts. Also reductions over the grid dimension, copy.deepcopy, a deep-copy probe of every other result (own, equal grid), and the same index list applied along two grid dimensions to two arrays of one grid (second selection vs a fresh grid). Non-trivial = at least two steps "
     "executed and at least one outside plain arithmetic; distinct by case hash."
 )
 ASSUMPTIONS = [
